@@ -162,6 +162,13 @@ func c04Packet(c *fw.Ctx, i int) {
 		c.Count("skipped_build_refused(C01)", 1)
 		return
 	}
+	if p.ExtKind != ref.ExtNone && c.R.Chance(1, 8) {
+		// the extension bit with an empty element list (all elements deleted again) is constructible too
+		for _, id := range pk.GetExtensionIDs() {
+			_ = pk.DelExtension(id)
+		}
+		p.Elems = nil
+	}
 	var want []byte
 	var size, hdr int
 	if pv, _ := fw.Guard(func() {
@@ -212,6 +219,12 @@ func c04Header(c *fw.Ctx, i int) {
 	if err := gen.FillHeader(&h, p); err != nil {
 		c.Count("skipped_build_refused(C01)", 1)
 		return
+	}
+	if p.ExtKind != ref.ExtNone && c.R.Chance(1, 8) {
+		for _, id := range h.GetExtensionIDs() {
+			_ = h.DelExtension(id)
+		}
+		p.Elems = nil
 	}
 	var want []byte
 	var size int
